@@ -257,10 +257,43 @@ def mgr_conformance(args):
         shutil.rmtree(wd, ignore_errors=True)
 
 
+def deleted_keyspace_eviction(variant):
+    """a sealed journal whose watermarks cover three keyspaces: one flushed, one deleted afterwards, one still unflushed.
+    Whatever the order of the watermarks (hash-map order: both deletions and several name sets are tried), the deleted
+    keyspace must not let the journal go while the third keyspace's writes live only in it: after a crash they are there"""
+    names, victim = variant
+    keep = 3 - victim                     # handles 1 and 2 lag; one of them is deleted
+    L = ["open plain jcomp=none"] + ["ks h%d %s mt=400000000" % (i, n) for i, n in enumerate(names)] + \
+        ["put h1 6b01 b1", "put h2 6b02 c2", "put h0 6d00 00", "bigfill h0 66 1024 t0", "rotate h0", "drain", "journals",
+         "delks h%d" % victim, "drop h%d" % victim, "put h0 6d01 01", "rotate h0", "drain", "journals", "exit 0"]
+    prog = "\n".join(L) + "\n"
+    wd = workdir()
+    try:
+        db = os.path.join(wd, "db")
+        o, raw, rc = run_fjv(prog, dbdir=db, timeout=600)
+        if rc == -99 or any(v == "err timeout" for v in o.values()) or o.get(len(names) + 8) != "2":
+            return None                   # cut off, or the journal was not sealed: nothing to judge
+        key, val = ("6b01", "b1") if keep == 1 else ("6b02", "c2")
+        o2, raw2, rc2 = run_fjv("open plain\nks h0 %s\nget - h0 %s\njournals\n" % (names[keep], key), dbdir=db, timeout=300)
+        if o2.get(3) != "some " + val:
+            return ("keyspace %s was deleted while keyspace %s still had its only copy of %s=%s in the sealed journal; after the next "
+                    "maintenance and a crash: open %s, get = %s (journal files before the crash: %s)"
+                    % (names[victim], names[keep], key, val, o2.get(1), o2.get(3), o.get(len(L) - 1)), prog)
+        return None
+    finally:
+        shutil.rmtree(wd, ignore_errors=True)
+
+
+DKE = [(ns, v) for ns in (("alpha", "beta", "gamma"), ("left", "right", "mid"), ("k1", "k2", "k3"), ("zeta", "eta", "theta")) for v in (1, 2)]
+
+
 def run(rep, tier, seed, build):
     from common import proof_audit, TRUSTED_BASE
     obl, dis, pproblems = proof_audit("props/C10.v", THEOREMS, build["coq"])
     mc = pmap(mgr_conformance, [(i, seed) for i in range(4 if tier == "quick" else 40)], workers=4)
+    dk = [x for x in pmap(deleted_keyspace_eviction, DKE[:4] if tier == "quick" else DKE, workers=4) if x]
+    for msg, prog in dk[:1]:
+        rep.violation("# C10: %s\n%s" % (msg, prog))
     n = 16 if tier == "quick" else 120
     results = pmap(eviction_workload, [(i, seed, tier) for i in range(n)], workers=6)
     bad = [r_ for r_ in results if r_["problems"]]
@@ -275,7 +308,7 @@ def run(rep, tier, seed, build):
                              "write, journal_count returns to 1 after everything is flushed; non-trivial = at least one journal unlinked",
                         samples=[r_["sample"] for r_ in results if r_.get("sample")][:3], workloads=n,
                         journal_unlinks=sum(len(r_["unlinks"]) for r_ in results), incomplete_runs=sum(1 for r_ in results if r_.get("incomplete")) + sum(1 for x in mc if x.get("incomplete")), disagreements_checked=len(bad) + len([x for x in mc if x["diffs"]]),
-                        model_conformance_workloads=len(mc), model_conformance_steps=sum(x["steps"] for x in mc),
+                        deleted_keyspace_scenarios=4 if tier == "quick" else len(DKE), model_conformance_workloads=len(mc), model_conformance_steps=sum(x["steps"] for x in mc),
                         model_conformance_seals=sum(x["seals"] for x in mc), model_conformance_sample=mc[0]["counts"] if mc else [],
                         obligations=obl, discharged=dis if not pproblems else min(dis, obl - 1),
                         checker_cmd="cd coq && make props/C10.vo (coqc 8.16.1) + Print Assumptions audit", trusted_base=TRUSTED_BASE,
